@@ -197,3 +197,13 @@ CLAIMS["C02"] = (
     "The gap inequality is a theorem for any comparison point, so inexact references cannot cause alarms. Margins: 1 (C01 solvers), "
     "10 (FISTA). Non-smooth datafits compared by objective value (1e-6).",
     "DESIGN.md §4 C02")
+CLAIMS["C14"] = (
+    "exploration",
+    "bounded exhaustive enumeration of inputs on which a general component and its special case (both real compiled code) are run side by side; differential equality / convexity-theorem oracle",
+    "13 component-level reductions (unit weights, l1_ratio = 1, singleton groups, one task, constant SLOPE, gamma / delta = 2^20, unit and "
+    "integer sample weights vs replicated rows, Efron vs Breslow on every tie-free pattern, group and multitask datafits vs plain) are "
+    "compared on the full prox / score / value / accessor grids (equality to 1e-10; 1e-5 for the limit cases), and 7 solution-level "
+    "reductions (WeightedLasso, ElasticNet, GroupLasso, MCPRegression, MultiTaskLasso vs Lasso; estimators vs the equivalent "
+    "GeneralizedLinearEstimator, bit-wise) on 4 designs x 2 alphas x intercept through the optimality-gap theorem.",
+    "Differential only: the special case is the oracle of the general component (their common correctness is C06-C08's business).",
+    "DESIGN.md §4 C14")
